@@ -14,7 +14,14 @@ the machine-code column = the bytes appended), bound to the code POINTWISE:
                        UNBOUND at emit time, BOUND before, and bound IN ANOTHER SECTION, combined with the form's immediate set to pairwise
                        distinct non-zero bytes (0x7A / 0x3322 / 0x44332211 by width); the fixups / relocations CodeHolder registered for the
                        instruction (field offset, width) are exported with the observation;
-  TLC (FmtObs.tla)     every observation is an initial state; invariant Verdict(o) = ok, i.e. Canon(tokens) matches Denote(request)
+                       decoration / option COMBINATIONS are swept on top of the lib's one-family-at-a-time grid ({sae} x every {er} mode, {k} x {z} x
+                       broadcast, all subsets of lock/xacquire/xrelease/rep/repne, short/long/both, subsets of rex/vex3/vex/evex/mod_mr/mod_rm):
+                       whatever the assembler ACCEPTS is judged (formatter and logger leg); the DB row's {er}/{sae} capability travels with the request;
+                       AArch64: wsp/sp/wzr/xzr in every general-purpose register position (operand, memory base, index) of every row;
+  TLC (FmtObs.tla)     decorations are read two ways: as GIVEN (all of them: {er}+{sae} together = {r?-sae}) or as EMITTED (EVEX P2: aaa = {k}, z,
+                       b = broadcast / rounding, L'L = rounding mode on a register-only form of a row that allows {er}, else {sae}); the text must
+                       denote one of the two readings completely;
+                       every observation is an initial state; invariant Verdict(o) = ok, i.e. Canon(tokens) matches Denote(request)
                        and the machine-code column has one pair per byte appended, each equal to that byte, except that exactly the
                        displacement / address field of a registered fixup or relocation may be masked ".." (whole field or nothing);
   TLC (FmtLogTrace.tla) logger transcripts: random programs of 20..60 emitter calls; the lines map one-to-one, in order, onto the
@@ -68,7 +75,7 @@ def a64_cases(ctx, repo, quick, seed):
     for ix, r in enumerate(rows):
         r["ix"] = ix + 1
     gen = c02.Gen(rows, ids, quick, seed)
-    cases, names = [], set()
+    cases, names, spz = [], set(), []
     for r in rows:
         vec = c02.is_vec_row(r)
         cs = None
@@ -87,6 +94,18 @@ def a64_cases(ctx, repo, quick, seed):
                     continue                    # register ids above 31 have no architectural name (C02 probes them on purpose)
                 cases.append({"n": name, "iid": iid, "o": ops})
                 names.add(base)
+            # wsp / sp / wzr / xzr in EVERY general-purpose register position of the row (operand, memory base, memory index), one at a time
+            # around the row's baseline; the formatter leg judges all of them, the logger leg those the assembler accepts
+            base_ops = next((ops for ops in cs if not any(bad_id(o) for o in ops)), None)
+            if base_ops is not None:
+                for p_, o in enumerate(base_ops):
+                    for sp in (0, 1):
+                        if o.get("k") == "r" and "ids" not in o:
+                            v = list(base_ops); v[p_] = dict(o, id=31, sp=sp); spz.append({"n": name, "iid": iid, "o": v})
+                        elif o.get("k") == "m":
+                            v = list(base_ops); v[p_] = dict(o, b=31, bsp=sp); spz.append({"n": name, "iid": iid, "o": v})
+                            if o["xi"] >= 0:
+                                v = list(base_ops); v[p_] = dict(o, xi=31, xsp=sp); spz.append({"n": name, "iid": iid, "o": v})
     seen, uniq = set(), []
     for c in cases:
         key = c["n"] + json.dumps(c["o"], sort_keys=True)
@@ -107,6 +126,12 @@ def a64_cases(ctx, repo, quick, seed):
         rest = [c for c in uniq if id(c) not in ks]
         keep += rnd.sample(rest, max(0, want - len(keep)))
         uniq = keep
+    seen = {c["n"] + json.dumps(c["o"], sort_keys=True) for c in uniq}
+    for c in spz:
+        key = c["n"] + json.dumps(c["o"], sort_keys=True)
+        if key not in seen:
+            seen.add(key)
+            uniq.append(c)
     dummy = ids.get("add", {}).get("gp", 1)
     ops = a64_operand_cases(rnd)
     return [enrich(c) for c in uniq] + [enrich({"n": "", "iid": dummy, "leg": "O", "o": [o]}) for o in ops], len(names)
@@ -313,6 +338,8 @@ def signature(o, role, idx, exp, got):
         return f"{a}:{role}:{exp}-printed-as-{got}"
     if role == "mnemonic":
         return f"{a}:mnemonic:{o.get('mn') or o.get('n')}-printed-as-{got}"
+    if role in ("rounding", "sae") and o.get("er", -1) >= 0 and o.get("sae"):
+        return f"{a}:rounding:er-and-sae-given-{exp}-printed-as-{got}"
     if role in ("zeroing", "rounding", "sae", "broadcast", "mem-writeback"):
         return f"{a}:{role}:{'dropped' if got != exp else 'misplaced'}" if exp == "{" or exp == "!" else f"{a}:{role}:{exp}-printed-as-{got}"
     if role == "mem-extend":
@@ -492,7 +519,7 @@ def run(ctx):
 
 
 # ----------------------------------------------------------------------------------------------------------------
-OURS = ("a", "leg", "fl", "tx", "tk", "hx", "b", "nl", "ic", "cm", "fx")
+OURS = ("a", "leg", "fl", "tx", "tk", "hx", "b", "nl", "ic", "cm", "fx", "lst")
 
 
 def replay(ctx, path):
